@@ -20,7 +20,13 @@ Lvl1 == {[type |-> "object", properties |-> [x |-> l]] : l \in Leaves}
 Lvl2 == {[properties |-> [n |-> l]] : l \in Lvl1}
         \cup {[properties |-> [n |-> l], required |-> <<"n">>] : l \in {[properties |-> [x |-> [default |-> Num(R_1)]]]}}
 Subs == IF K >= 2 THEN Leaves \cup Lvl1 \cup Lvl2 ELSE Leaves \cup Lvl1
-Roots(z) == {[properties |-> [a |-> s]] : s \in Subs}
+Lvl3 == {[properties |-> [n |-> l], default |-> d] : l \in Lvl1, d \in {EmptyObj, Obj([n |-> EmptyObj]), Null}}
+        \cup {[properties |-> [n |-> [properties |-> [n |-> l]]]] : l \in Lvl1}
+Pairs3 == IF K >= 3 THEN {[properties |-> [a |-> s1, b |-> s2]] : s1 \in Lvl1 \cup Lvl2, s2 \in Leaves \cup Lvl1}
+                         \cup {[properties |-> [a |-> s]] : s \in Lvl3}
+                         \cup {[properties |-> [a |-> s1, c |-> s2], required |-> r] : s1 \in Lvl2, s2 \in Lvl1, r \in {<<"a">>, <<"c">>, <<"a", "c">>}}
+          ELSE {}
+Roots(z) == UNION {Pairs3, {[properties |-> [a |-> s]] : s \in Subs}}
             \cup {[properties |-> [a |-> s, b |-> [default |-> Bool(TRUE)]], required |-> r] : s \in Lvl1, r \in {<<>>, <<"a">>, <<"b">>}}
             \cup {TrueS, FalseS, [default |-> Num(R_1)], [items |-> [properties |-> [a |-> [default |-> Num(R_1)]]]]}
 \* instances: every subset of the properties present, non-objects at any position
